@@ -2,6 +2,7 @@ package main
 
 import (
 	"fmt"
+	"go/types"
 	"strings"
 
 	"golang.org/x/tools/go/ssa"
@@ -63,7 +64,7 @@ func runC02(c *Ctx) {
 	c.Rule("R2", "hyper.QueryProof.Verify: accepting ⇒ non-empty path ∧ key equality ∧ root equality of value recomputed from the caller's key", 1)
 	c.Rule("R3", "history.MembershipProof.Verify: result = Equal(recomputed-from-caller-digest, expected root); leaf payload from the parameter only", 1)
 	c.Rule("R4", "protocol.ToBalloonProof: hyper Value and history Index from the same ActualVersion; history Version from QueryVersion", 3)
-	c.Rule("R5", "client verification entry points return DigestVerify's verdict unmodified", 2)
+	c.Rule("R5", "callers of DigestVerify pass the caller-supplied digest, return its verdict unmodified, and assemble the snapshot from the right stored versions", 6)
 
 	dv := p.MustMethod(pkgBalloon, "MembershipProof", "DigestVerify")
 	hyV := p.MustMethod(pkgHyper, "QueryProof", "Verify")
@@ -73,6 +74,8 @@ func runC02(c *Ctx) {
 	c02R3(c, hiV)
 	c02R4(c)
 	c02R5(c, dv)
+	c.Rule("R6", "the verifier's visitor (and its siblings) hash a leaf from the node's value with the position salt on every return — never from the proof", 9)
+	histFormulas(c, "R6", buildHistRoles(c))
 }
 
 func sameBalloonPkg(p *Program) func(*ssa.Function) bool {
@@ -364,26 +367,49 @@ func c02R4(c *Ctx) {
 
 func c02R5(c *Ctx, dv *ssa.Function) {
 	p := c.P
-	// every function of package client that calls DigestVerify and returns bool at result 0 must return that call's result unmodified
-	sp := p.SSAPkg[modPkg("client")]
-	if sp == nil {
-		fatalf("package client not loaded")
-	}
+	// every non-test caller of DigestVerify in the module
+	n := 0
 	for _, fn := range p.ModFuncs {
-		if fn.Pkg != sp || p.isTestScaffold(fn) {
+		if p.isTestScaffold(fn) {
 			continue
 		}
 		calls := callsIn(fn, func(cc *ssa.CallCommon) bool { return cc.StaticCallee() == dv })
 		if len(calls) == 0 {
 			continue
 		}
+		n++
+		name := funcName(fn)
+		for _, call := range calls {
+			cc := callCommon(call)
+			recv := p.TermOf(cc.Args[0])
+			dig := p.TermOf(cc.Args[1])
+			// derives from the answer under verification (its client-side hasher is not part of the answer)
+			var fromProofRec func(t *Term) bool
+			fromProofRec = func(t *Term) bool {
+				if t.String() == recv.String() {
+					return true
+				}
+				if t.Op == "field" && namedIs(typeOfTerm(t), "crypto/hashing", "Hasher") {
+					return false
+				}
+				for _, a := range t.Args {
+					if fromProofRec(a) {
+						return true
+					}
+				}
+				return false
+			}
+			fromProof := fromProofRec(dig)
+			fromParam := dig.Has(func(t *Term) bool { return t.Op == "param" && t.Fn == fn && t.String() != recv.String() })
+			c.Check(!fromProof && fromParam, "R5", name+":digest-arg", call.Pos(), "verifies the caller-supplied digest: "+dig.String(),
+				"DigestVerify is given "+dig.String()+" (proof is "+recv.String()+"): the digest under verification must come from the caller, never from the answer being verified")
+		}
 		if fn.Signature.Results().Len() == 0 || !isBool(fn.Signature.Results().At(0).Type()) {
 			continue
 		}
-		name := funcName(fn)
 		paths, ok := p.AcceptPaths(fn, 0, nil, 0)
 		if !ok {
-			c.Fail("R5", name, fn.Pos(), "client verification entry point is not loop-free")
+			c.Fail("R5", name, fn.Pos(), "verification entry point is not loop-free")
 			continue
 		}
 		bad := false
@@ -397,4 +423,74 @@ func c02R5(c *Ctx, dv *ssa.Function) {
 			c.Ok("R5", name, fn.Pos(), fmt.Sprintf("%d accepting path(s), all carry DigestVerify(...)", len(paths)))
 		}
 	}
+	if n < 2 {
+		c.Fail("R5", "callers-of-DigestVerify", dv.Pos(), "fewer than two callers of DigestVerify remain in the module")
+	}
+	// MembershipAutoVerify: which stored snapshot supplies which digest
+	auto := p.MustMethod("client", "HTTPClient", "MembershipAutoVerify")
+	getSnap := p.MustMethod("client", "HTTPClient", "GetSnapshot")
+	memDig := p.MustMethod("client", "HTTPClient", "MembershipDigest")
+	var snap *ssa.Alloc
+	eachInstr(auto, func(in ssa.Instruction) {
+		if al, ok := in.(*ssa.Alloc); ok && namedIs(deref(al.Type()), pkgBalloon, "Snapshot") {
+			snap = al
+		}
+	})
+	if snap == nil {
+		c.Fail("R5", funcName(auto)+":snapshot-wiring", auto.Pos(), "no balloon.Snapshot is assembled for verification")
+		return
+	}
+	_, byField := p.storesTo(snap)
+	versionOf := func(t *Term, digestField string) string {
+		// GetSnapshot(c, proof.<F>)#0.<digestField>  ->  F
+		if !t.IsField(digestField, nil) {
+			return ""
+		}
+		var f string
+		t.Has(func(x *Term) bool {
+			if x.IsCallTo(getSnap) && len(x.Args) == 2 {
+				a := x.Args[1]
+				if a.Op == "field" && a.Args[0].Has(func(y *Term) bool { return y.IsCallTo(memDig) }) {
+					f = a.Name
+				}
+			}
+			return false
+		})
+		return f
+	}
+	okH, okY, sawCur := true, true, false
+	var why []string
+	for _, v := range byField["HistoryDigest"] {
+		t := p.TermOf(v)
+		if t.Op == "const" {
+			continue
+		}
+		if versionOf(t, "HistoryDigest") != "QueryVersion" {
+			okH = false
+			why = append(why, "HistoryDigest ← "+t.String())
+		}
+	}
+	for _, v := range byField["HyperDigest"] {
+		t := p.TermOf(v)
+		if t.Op == "const" {
+			continue
+		}
+		switch versionOf(t, "HyperDigest") {
+		case "CurrentVersion":
+			sawCur = true
+		case "QueryVersion":
+		default:
+			okY = false
+			why = append(why, "HyperDigest ← "+t.String())
+		}
+	}
+	c.Check(okH && okY && sawCur, "R5", funcName(auto)+":snapshot-wiring", auto.Pos(), "history digest from the stored snapshot of QueryVersion, hyper digest from that of CurrentVersion",
+		"snapshot assembled for verification takes its digests from the wrong stored snapshot: "+strings.Join(why, "; ")+fmt.Sprintf(" (hyper-from-current=%v)", sawCur))
+}
+
+func typeOfTerm(t *Term) types.Type {
+	if t.V == nil {
+		return nil
+	}
+	return t.V.Type()
 }
